@@ -38,7 +38,8 @@ struct Net {
     int totalFromL = 0, totalFromR = 0;
     QStringList wireLog;
 
-    bool setup(bool lControlling)
+    // preAnswer: candidates are gathered and the sockets listen, but the peer's credentials and candidates are not known yet
+    bool setup(bool lControlling, bool preAnswer = false)
     {
         for (Peer *p : { &L, &R }) {
             p->conn.setIceControlling(p == &L ? lControlling : !lControlling);
@@ -70,8 +71,10 @@ struct Net {
             c.setPort(relayPort);
             to.conn.addRemoteCandidate(c);
         };
-        give(L, R, ra.localPort());
-        give(R, L, rb.localPort());
+        if (!preAnswer) {
+            give(L, R, ra.localPort());
+            give(R, L, rb.localPort());
+        }
         return true;
     }
 
@@ -169,6 +172,7 @@ struct Forge {
     int role;       // 0 controlling, 1 controlled, 2 none
     bool copiedId;
     bool fromPeerAddress;
+    int typeBits = 0;   // the two reserved top bits of the STUN message type (0 in every legal message)
 };
 const char *clsNames[] = { "binding-request", "success-response", "error-response" };
 const char *integNames[] = { "no-integrity", "wrong-key", "truncated-integrity", "zeroed-integrity", "VALID-integrity" };
@@ -187,6 +191,12 @@ std::vector<Forge> forges(bool control)
                         for (int cid = 0; cid < 2; ++cid) {
                             for (int src = 0; src < 2; ++src) {
                                 f.push_back({ cls, integ, bool(uc), un, role, bool(cid), bool(src) });
+                                // reserved type bits: only where no valid MAC is involved (the MAC covers the header)
+                                if (!control && integ <= 1 && cid == 0 && role != 1) {
+                                    for (int tb = 1; tb < 4; ++tb) {
+                                        f.push_back({ cls, integ, bool(uc), un, role, bool(cid), bool(src), tb });
+                                    }
+                                }
                             }
                         }
                     }
@@ -201,10 +211,20 @@ QString forgeName(const Forge &f)
 {
     return QStringLiteral("%1/%2/%3/user=%4/role=%5/id=%6/src=%7").arg(QString::fromLatin1(clsNames[f.cls]), QString::fromLatin1(integNames[f.integrity]), f.useCandidate ? QStringLiteral("use-candidate") : QStringLiteral("-"))
         .arg(f.username == 0 ? QStringLiteral("correct") : (f.username == 1 ? QStringLiteral("wrong") : QStringLiteral("absent")), f.role == 0 ? QStringLiteral("controlling") : (f.role == 1 ? QStringLiteral("controlled") : QStringLiteral("none")),
-             f.copiedId ? QStringLiteral("copied") : QStringLiteral("fresh"), f.fromPeerAddress ? QStringLiteral("peer-address") : QStringLiteral("unknown-port"));
+             f.copiedId ? QStringLiteral("copied") : QStringLiteral("fresh"), f.fromPeerAddress ? QStringLiteral("peer-address") : QStringLiteral("unknown-port")) +
+        (f.typeBits ? QStringLiteral("/reserved-type-bits=%1").arg(f.typeBits) : QString());
 }
 
+QByteArray buildForgedPlain(const Forge &f, Peer &victim, Peer &other, const QByteArray &copiedId, int salt);
 QByteArray buildForged(const Forge &f, Peer &victim, Peer &other, const QByteArray &copiedId, int salt)
+{
+    QByteArray d = buildForgedPlain(f, victim, other, copiedId, salt);
+    if (f.typeBits && !d.isEmpty()) {
+        d[0] = char(quint8(d[0]) | quint8(f.typeBits << 6));
+    }
+    return d;
+}
+QByteArray buildForgedPlain(const Forge &f, Peer &victim, Peer &other, const QByteArray &copiedId, int salt)
 {
     QXmppStunMessage m;
     m.setType(int(QXmppStunMessage::Binding) | (f.cls == 0 ? int(QXmppStunMessage::Request) : (f.cls == 1 ? int(QXmppStunMessage::Response) : int(QXmppStunMessage::Error))));
@@ -498,7 +518,8 @@ int main(int argc, char **argv)
         h.run = [](const QJsonObject &config, const std::vector<int> &history, bool) {
             auto x = std::make_unique<Exec>();
             x->fs = forges(false);
-            if (!x->net.setup(config.value(QStringLiteral("lControlling")).toBool(true))) {
+            const bool preAnswer = config.value(QStringLiteral("preAnswer")).toBool(false);
+            if (!x->net.setup(config.value(QStringLiteral("lControlling")).toBool(true), preAnswer)) {
                 x->violate(QStringLiteral("harness-setup"), QStringLiteral("setup failed"));
             } else {
                 x->net.start();
@@ -530,6 +551,9 @@ int main(int argc, char **argv)
             x->res.outcome = QStringLiteral("%1|%2").arg(x->net.L.conn.isConnected()).arg(x->net.R.conn.isConnected());
             if (x->net.L.conn.isConnected() && x->net.R.conn.isConnected()) {
                 x->witness("both_connected");
+            }
+            if (preAnswer && !history.empty()) {
+                x->witness("pre_answer_injections");
             }
             RunResult r = x->res;
             x.reset();
